@@ -223,5 +223,5 @@ func (a jsonMultiset) patch(pathBehind, pathAhead Path, before, oldValues, newVa
 	for _, hc := range aHashes {
 		newValue = append(newValue, aMap[hc])
 	}
-	return newValue, nil
+	return jsonArray(newValue), nil
 }
